@@ -101,6 +101,24 @@ def build_session(rng, tmp, kind, metric, ext, rep, tm):
                 for e in (e1, e2):
                     e["arr"] = s.ev[-1]["arr"]
                     s.ev.append(e)
+        # the same object re-fitted on the same samples in reversed order (a training set of the same size): the matrix it reports is
+        # the matrix of the training set it holds NOW
+        Ir = I[::-1].copy()
+        s.fit(a, 2, Z[Ir].copy(), Ytr[::-1].copy(), tuple(e.copy() for e in extra), I=None, data_key=[s.ctr, a, "reversed"])
+        M2 = s.call("get_distances", s.objs[a]["m"].get_distances)
+        if M2 is not None and getattr(M2, "shape", None) == getattr(M, "shape", None):
+            for i in range(len(Ir)):
+                for j in range(len(Ir)):
+                    xi, xj = Z[Ir[i]].copy(), Z[Ir[j]].copy()
+                    cx, cy = s.I("arr", xi), s.I("arr", xj)
+                    mid = s.I("metric", metric)
+                    e1 = dict(op="dist", m=mid, cx=cx, cy=cy, v=s.vid(float(fn(xi, xj))), name=metric)
+                    e2 = dict(op="dist", m=mid, cx=cx, cy=cy, v=s.vid(float(M2[i][j])), name="get_distances")
+                    for e in (e1, e2):
+                        e["arr"] = s.ev[-1]["arr"]
+                        s.ev.append(e)
+        # (back to the original order for what follows)
+        s.fit(a, 3, Z[I].copy(), Ytr.copy(), tuple(e.copy() for e in extra), I=None, data_key=[s.ctr, a, "again"])
         Mn = s.call("get_distances_normalized", s.objs[a]["m"].get_distances, True)
         if Mn is not None and M.max() > M.min():
             bad = 0
